@@ -93,4 +93,220 @@ theorem processJoin_refused (cfg : Cfg) (c : Nat) (chans : List Str) (keys : Opt
   simp only [Ctx.modifyW]
   rw [joinApply_refused _ _ _ _ hall]
 
+/-! ### maps -/
+
+theorem keys_insert_of_lookup_none {α : Type} (k : Str) (v : α) (m : Map α)
+    (h : Map.lookup k m = none) : Map.keys (Map.insert k v m) = Map.keys m ++ [k] := by
+  induction m with
+  | nil => rfl
+  | cons p m ih =>
+    obtain ⟨k', v'⟩ := p
+    simp only [Map.lookup] at h
+    split at h
+    · cases h
+    · rename_i hne
+      simp only [Map.insert, hne, ↓reduceIte]
+      have := ih h
+      simp only [Map.keys, List.map_cons, List.cons_append] at this ⊢
+      rw [this]
+
+theorem filter_ne_of_not_mem (k : Str) (l : List Str) (h : k ∉ l) : l.filter (· != k) = l := by
+  rw [List.filter_eq_self]
+  intro a ha
+  simp only [bne_iff_ne, ne_eq]
+  rintro rfl
+  exact h ha
+
+/-! ### `Channel.addUser` -/
+
+/-- the member flags `add_user` gives: flag ↔ the nick is on the channel's default list -/
+def defaultRanks (ch : Channel) (nick : Str) : ChanUserModes :=
+  { founder := KSet.mem nick ch.defaultModes.founders
+    prot := KSet.mem nick ch.defaultModes.protecteds
+    voice := KSet.mem nick ch.defaultModes.voices
+    operator := KSet.mem nick ch.defaultModes.operators
+    halfOper := KSet.mem nick ch.defaultModes.halfOperators }
+
+theorem addUser_users (ch : Channel) (nick : Str) :
+    (ch.addUser nick).users = Map.insert nick (defaultRanks ch nick) ch.users := rfl
+
+theorem addUser_lookup_self (ch : Channel) (nick : Str) :
+    Map.lookup nick (ch.addUser nick).users = some (defaultRanks ch nick) := by
+  rw [addUser_users, Map.lookup_insert_eq]
+
+theorem addUser_lookup_other (ch : Channel) (nick n : Str) (h : n ≠ nick) :
+    Map.lookup n (ch.addUser nick).users = Map.lookup n ch.users := by
+  rw [addUser_users, Map.lookup_insert_ne _ _ _ _ (Ne.symm h)]
+
+theorem addUser_frame (ch : Channel) (nick : Str) :
+    (ch.addUser nick).topic = ch.topic ∧ (ch.addUser nick).defaultModes = ch.defaultModes ∧
+    (ch.addUser nick).banInfo = ch.banInfo ∧ (ch.addUser nick).preconfigured = ch.preconfigured ∧
+    (ch.addUser nick).modes.ban = ch.modes.ban ∧ (ch.addUser nick).modes.exception = ch.modes.exception ∧
+    (ch.addUser nick).modes.inviteException = ch.modes.inviteException ∧
+    (ch.addUser nick).modes.key = ch.modes.key ∧ (ch.addUser nick).modes.clientLimit = ch.modes.clientLimit ∧
+    (ch.addUser nick).modes.inviteOnly = ch.modes.inviteOnly ∧
+    (ch.addUser nick).modes.moderated = ch.modes.moderated ∧ (ch.addUser nick).modes.secret = ch.modes.secret ∧
+    (ch.addUser nick).modes.protectedTopic = ch.modes.protectedTopic ∧
+    (ch.addUser nick).modes.noExternalMessages = ch.modes.noExternalMessages :=
+  ⟨rfl, rfl, rfl, rfl, rfl, rfl, rfl, rfl, rfl, rfl, rfl, rfl, rfl, rfl⟩
+
+/-- the five rank lists after `add_user`: the nick is added to a list iff its flag is set -/
+theorem addUser_rankLists (ch : Channel) (nick n : Str) :
+    (KSet.mem n (ch.addUser nick).modes.founders =
+      (KSet.mem n ch.modes.founders || (decide (n = nick) && (defaultRanks ch nick).founder))) ∧
+    (KSet.mem n (ch.addUser nick).modes.protecteds =
+      (KSet.mem n ch.modes.protecteds || (decide (n = nick) && (defaultRanks ch nick).prot))) ∧
+    (KSet.mem n (ch.addUser nick).modes.operators =
+      (KSet.mem n ch.modes.operators || (decide (n = nick) && (defaultRanks ch nick).operator))) ∧
+    (KSet.mem n (ch.addUser nick).modes.halfOperators =
+      (KSet.mem n ch.modes.halfOperators || (decide (n = nick) && (defaultRanks ch nick).halfOper))) ∧
+    (KSet.mem n (ch.addUser nick).modes.voices =
+      (KSet.mem n ch.modes.voices || (decide (n = nick) && (defaultRanks ch nick).voice))) := by
+  simp only [Channel.addUser, defaultRanks]
+  refine ⟨?_, ?_, ?_, ?_, ?_⟩ <;> split <;> simp [KSet.mem_insert, Bool.or_comm, *]
+
+
+/-! ### NAMES part of the announcement -/
+
+theorem foldl_reply_map {α : Type} (cfg : Cfg) (f : α → Str) (l : List α) (x : Ctx) :
+    l.foldl (fun x a => x.reply cfg (f a)) x
+      = { x with direct := x.direct ++ l.map (fun a => srvLine cfg (f a)) } := by
+  induction l generalizing x with
+  | nil => simp
+  | cons e es ih =>
+    rw [List.foldl_cons, ih]
+    simp [Ctx.reply, srvLine]
+
+def ctx0 : Ctx := { w := {} }
+
+def namesBad (cfg : Cfg) (cn : Conn) (chn : Str) (ch : Channel) (users : Map User) : Bool :=
+  (namesLines cfg cn chn ch users ctx0).w.panicked.isSome
+
+def namesOut (cfg : Cfg) (cn : Conn) (chn : Str) (ch : Channel) (users : Map User) : List Str :=
+  (namesLines cfg cn chn ch users ctx0).direct
+
+theorem namesLines_eq (cfg : Cfg) (cn : Conn) (chn : Str) (ch : Channel) (users : Map User)
+    (x : Ctx) :
+    namesLines cfg cn chn ch users x =
+      { (if namesBad cfg cn chn ch users then x.panic "names: member without user" else x) with
+        direct := x.direct ++ namesOut cfg cn chn ch users } := by
+  unfold namesBad namesOut namesLines
+  simp only [foldl_reply_map]
+  generalize List.any _ _ = B
+  cases B <;> simp [ctx0, Ctx.panic, World.panic]
+
+theorem namesBad_false (cfg : Cfg) (cn : Conn) (chn : Str) (ch : Channel) (users : Map User)
+    (h : ∀ n ∈ Map.keys ch.users, Map.contains n users = true) :
+    namesBad cfg cn chn ch users = false := by
+  unfold namesBad namesLines
+  simp only [foldl_reply_map]
+  generalize hB : List.any _ _ = B
+  cases B
+  · simp [ctx0]
+  · exfalso
+    rw [List.any_eq_true] at hB
+    obtain ⟨o, ho, hnone⟩ := hB
+    simp only [List.mem_map] at ho
+    obtain ⟨⟨n, m⟩, hp, rfl⟩ := ho
+    have hn : n ∈ Map.keys ch.users := List.mem_map.mpr ⟨(n, m), hp, rfl⟩
+    obtain ⟨u, hu⟩ := (Map.contains_iff _ _).mp (h n hn)
+    simp only [hu] at hnone
+    generalize (!u.modes.invisible || _) = c at hnone
+    cases c <;> simp at hnone
+
+/-- with all members present in the user table, `send_names_from_channel` only appends direct
+    lines, and these depend on the world only -/
+theorem sendNames_eq (cfg : Cfg) (c : Nat) (chn : Str) (ch : Channel) (theEnd : Bool) (x : Ctx)
+    (h : ∀ n ∈ Map.keys ch.users, Map.contains n x.w.users = true) :
+    sendNamesFromChannel cfg c chn ch theEnd x =
+      { x with direct := x.direct ++ (sendNamesFromChannel cfg c chn ch theEnd { w := x.w }).direct } := by
+  have hc : ({ w := x.w } : Ctx).conn c = x.conn c := rfl
+  unfold sendNamesFromChannel
+  simp only [hc, namesLines_eq, namesBad_false _ _ _ _ _ h]
+  cases theEnd <;> split <;> split <;> simp [Ctx.reply]
+
+/-! ### the announcement loop -/
+
+/-- owner (connection id) of a nick; 0 for an unknown nick (never used under the hypotheses) -/
+def ownerOf (users : Map User) (n : Str) : Nat :=
+  match Map.lookup n users with
+  | some u => u.owner
+  | none => 0
+
+theorem foldl_sendOthers (nick src t : Str) (ns : List Str) (x : Ctx)
+    (h : ∀ n ∈ ns, n ≠ nick → Map.contains n x.w.users = true) :
+    ns.foldl (fun x n => if n != nick then x.sendDisplay n src t else x) x =
+      { x with queued := x.queued ++
+          (ns.filter (· != nick)).map (fun n => (ownerOf x.w.users n, ':' :: (src ++ ' ' :: t))) } := by
+  induction ns generalizing x with
+  | nil => simp
+  | cons n ns ih =>
+    rw [List.foldl_cons]
+    by_cases hn : n = nick
+    · subst hn
+      simp only [bne_self_eq_false, Bool.false_eq_true, ↓reduceIte, List.filter_cons]
+      exact ih x (fun m hm => h m (List.mem_cons_of_mem _ hm))
+    · have hb : (n != nick) = true := by simp [hn]
+      obtain ⟨u, hu⟩ := (Map.contains_iff _ _).mp (h n List.mem_cons_self hn)
+      simp only [hb, ↓reduceIte, List.filter_cons, List.map_cons]
+      rw [Ctx.sendDisplay, Ctx.send_w_of_lookup _ _ _ hu, ih]
+      · simp [ownerOf, hu]
+      · exact fun m hm => h m (List.mem_cons_of_mem _ hm)
+
+/-- the announcement of ONE accepted channel -/
+theorem joinAnnounce_single (cfg : Cfg) (c : Nat) (nick chn : Str) (cr : Bool) (x : Ctx) (C : Channel)
+    (hC : Map.lookup chn x.w.channels = some C)
+    (hmem : ∀ n ∈ Map.keys C.users, Map.contains n x.w.users = true) :
+    joinAnnounce cfg c nick [(true, cr)] [chn] x =
+      { w := x.w
+        direct := x.direct ++ (':' :: ((x.conn c).source ++ ' ' :: (str "JOIN " ++ chn))) ::
+          ((match C.topic with
+            | some t => [srvLine cfg (RplTopic332 (x.conn c).clientName chn t.topic)]
+            | none => []) ++
+           (sendNamesFromChannel cfg c chn C true { w := x.w }).direct)
+        queued := x.queued ++ ((Map.keys C.users).filter (· != nick)).map (fun n =>
+          (ownerOf x.w.users n, ':' :: ((x.conn c).source ++ ' ' :: (str "JOIN " ++ chn)))) } := by
+  simp only [joinAnnounce, ↓reduceIte, hC]
+  have hc1 : ∀ s t, (x.replySrc s t).conn c = x.conn c := fun _ _ => rfl
+  have hc2 : ∀ (y : Ctx) t, (y.reply cfg t).conn c = y.conn c := fun _ _ => rfl
+  cases hT : C.topic with
+  | none =>
+    simp only
+    rw [sendNames_eq _ _ _ _ _ _ (by simpa using hmem), foldl_sendOthers _ _ _ _ _ (fun n hn _ => by simpa using hmem n hn)]
+    simp
+  | some t =>
+    simp only
+    rw [sendNames_eq _ _ _ _ _ _ (by simpa using hmem), foldl_sendOthers _ _ _ _ _ (fun n hn _ => by simpa using hmem n hn)]
+    simp [srvLine]
+
+/-! ### the insert loop on one accepted channel -/
+
+/-- what `joinApply` does to the user record of the joiner for an accepted channel -/
+def userJoined (chn : Str) (u : User) : User :=
+  { u with channels := KSet.insert chn u.channels, invitedTo := KSet.erase chn u.invitedTo }
+
+theorem joinApply_single (nick chn : Str) (w : World) (C : Channel)
+    (hC : Map.lookup chn w.channels = some C) :
+    joinApply nick [(true, false)] [chn] w =
+      { w with users := Map.modify nick (userJoined chn) w.users
+               channels := Map.insert chn (C.addUser nick) w.channels } := by
+  simp only [joinApply, ↓reduceIte, hC, Bool.false_eq_true]
+  rfl
+
+theorem contains_modify {α : Type} (k k' : Str) (f : α → α) (m : Map α) :
+    Map.contains k (Map.modify k' f m) = Map.contains k m := by
+  simp only [Map.contains, Map.lookup_modify]
+  split
+  · cases Map.lookup k m <;> rfl
+  · rfl
+
+theorem ownerOf_modify (nick n chn : Str) (users : Map User) :
+    ownerOf (Map.modify nick (userJoined chn) users) n = ownerOf users n := by
+  simp only [ownerOf, Map.lookup_modify]
+  by_cases h : nick = n
+  · simp only [h, ↓reduceIte]
+    cases Map.lookup n users <;> rfl
+  · simp only [h, ↓reduceIte]
+
+
 end Irc.C07
